@@ -164,6 +164,11 @@ func sharingConfigs(env *engine.Env) []fixture.Doc {
 	// a changelog together with a content entry at the path of the changelog deb generates: deb refuses it, the
 	// other formats ship the entry
 	docs = append(docs, mk(append([]model.Entry{{Src: "doc/README", Dst: "/usr/share/doc/pkg/changelog.Debian.gz"}}, plain...), func(d fixture.Doc) { d["changelog"] = t.P("changelog.yaml") }))
+	// an override block that replaces the contents, its list holding entries addressed to single packagers
+	docs = append(docs, mk(plain, func(d fixture.Doc) {
+		oc := fixture.ContentsYAML(specs([]model.Entry{{Src: "bin/app", Dst: "/usr/bin/app"}, {Src: "etc/app.conf", Dst: "/etc/only-rpm.conf", Packager: "rpm", Type: "config"}, {Src: "etc/app.conf", Dst: "/etc/only-deb.conf", Packager: "deb", Type: "config"}, {Src: "etc/app.conf", Dst: "/etc/only-apk.conf", Packager: "apk"}, {Dst: "/var/lib/from-override", Type: "dir", HasInfo: true, Owner: "app"}}), t.Root)
+		d["overrides"] = map[string]any{"deb": map[string]any{"contents": oc, "depends": []any{"from-the-block"}}}
+	}))
 	// everything together
 	all := mk(append(append([]model.Entry{}, partial...), tagged[1:]...), func(d fixture.Doc) {
 		d["overrides"] = map[string]any{"deb": map[string]any{"umask": 0o077, "depends": []any{"only-deb"}}, "rpm": map[string]any{"rpm": map[string]any{"signature": map[string]any{"key_id": "cccc3333"}}}}
